@@ -364,10 +364,69 @@ def siblings(ctx, mod, fns, I):
                and any(isinstance(x, ast.Constant) and x.value == "---" for a in c.args for x in ast.walk(a))]
     body_calls = [st for st in hdr.body if isinstance(st, ast.Expr) and st.value in marks_w]
     first_last = len(marks_w) >= 2 and bool(body_calls) and hdr.body[-1] in body_calls
-    marks_r = [n for n in ast.walk(read) if isinstance(n, ast.Compare) and any(isinstance(x, ast.Constant) and x.value == "---\n" for x in n.comparators)]
-    ctx.ob("C16.siblings", "YAML block delimited by '---' lines on both sides", first_last and bool(marks_r),
-           f"{len(marks_w)} marker write(s) in the header writer (last statement is a marker: {bool(body_calls) and hdr.body[-1] in body_calls}), {len(marks_r)} marker test(s) in the reader", L(mod, hdr, ctx))
+    ctx.ob("C16.siblings", "YAML block opened and closed by '---' lines in the writer", first_last,
+           f"{len(marks_w)} marker write(s) in the header writer (last statement is a marker: {bool(body_calls) and hdr.body[-1] in body_calls})", L(mod, hdr, ctx))
     ctx.floor("C16.siblings", 9)
+    line_classes(ctx, mod, read)
+
+
+def line_classes(ctx, mod, read):
+    """Interpret read_scsv's line loop on one representative per class of line the writer can emit: the header goes to the YAML parser,
+    every data line (including rows made only of delimiters, i.e. every cell empty) reaches the CSV parser, nothing else is dropped."""
+    from ..values import Native
+    from ..interp import RaiseSig, Unsupported
+    ctx.rule("C16.line-classes", "reader's line loop interpreted per line class: header lines -> YAML parser, every writer-producible data line -> CSV parser "
+                                 "(rows of bare delimiters, whitespace delimiters, blank separator lines only are skipped)")
+    loc = L(mod, read, ctx)
+    header = ["---\n", "schema:\n", "  delimiter: 'D'\n", "  missing: ''\n", "  fields:\n", "    - name: a\n", "      type: integer\n", "---\n"]
+    cases = {
+        "comma rows": (",", ["a,b\n", "1,2\n", ",\n", "3,\n"]),
+        "tab rows with an all-missing row": ("\t", ["a\tb\n", "1\t2\n", "\t\n", "3\t4\n"]),
+        "space-delimited all-missing row": (" ", ["a b\n", "1 2\n", " \n", "3 4\n"]),
+        "form-feed delimiter": ("\x0c", ["a\x0cb\n", "\x0c\n"]),
+        "single column": (",", ["a\n", "1\n", "''\n"]),
+        "blank separator lines": (",", ["\n", "a,b\n", "\n", "1,2\n", "\n"]),
+        "data row starting with dashes": (",", ["a,b\n", "---,1\n", "--- ,2\n"]),
+        "dash cell followed by an empty cell": (" ", ["a b\n", "--- \n"]),
+    }
+    for name, (delim, rows) in cases.items():
+        lines = [h.replace("D", delim) for h in header] + rows
+        got = {}
+
+        class Stop(Exception):
+            pass
+
+        def safe_load(I_, text):
+            got["yaml"] = text
+            return {"schema": {"delimiter": delim, "missing": "", "fields": [{"name": "a", "type": "integer"}, {"name": "b", "type": "integer"}]}}
+
+        def reader(I_, lines_, **kw):
+            got["csv"] = list(lines_)
+            raise Stop()
+        ext = {"builtins.open": Native("open", lambda I_, *a, **k: list(lines)),
+               "io.StringIO": Native("StringIO", lambda I_, s="": s),
+               "yaml.safe_load": Native("safe_load", safe_load),
+               "csv.reader": Native("reader", reader)}
+        I = Interp(ctx.program, externals=ext, stubs={"pydrex.io.resolve_path": Native("resolve_path", lambda I_, p, *a: p),
+                                                        "pydrex.io._validate_scsv_schema": Native("validate", lambda I_, s: True)})
+        f = I.resolve("pydrex.io.read_scsv")
+        try:
+            I.call(f, ("file.scsv",))
+            why = "the reader never reached the CSV parser"
+        except Stop:
+            why = ""
+        except RaiseSig as r:
+            why = f"raises {r.exc.typename}"
+        want_yaml = "".join(h.replace("D", delim) for h in header[1:-1])
+        want_csv = [r for r in rows if r != "\n"]
+        if not why:
+            if got.get("yaml") != want_yaml:
+                why = f"YAML parser received {got.get('yaml')!r}, the header block is {want_yaml!r}"
+            elif got.get("csv") != want_csv:
+                lost = [r for r in want_csv if r not in got.get("csv", [])]
+                why = f"data line(s) {lost!r} never reach the CSV parser (got {got.get('csv')!r})"
+        ctx.ob("C16.line-classes", name, not why, why, loc)
+    ctx.floor("C16.line-classes", 8)
 
 
 def substitution(ctx, mod, fns):
